@@ -170,19 +170,55 @@ type Hit struct {
 	Hay    StrV
 	Needle Lin  // needle length
 	Mask   Mask // possible needle bytes (IndexByte)
+	Org    ssa.Instruction
+}
+
+func hitOf(r Sym, h searchHit) Hit {
+	n := h.nlen
+	if n.IsConst() && n.C == 0 {
+		n = K(1)
+	}
+	return Hit{R: r, Hay: h.h, Needle: n, Mask: h.mask, Org: h.org}
 }
 
 func (e *Engine) Hits(st *State) []Hit {
+	var rs []Sym
+	for r := range st.hits {
+		rs = append(rs, r)
+	}
+	sortSyms(rs)
 	var out []Hit
-	for r, h := range st.hits {
-		n := h.nlen
-		if n.IsConst() && n.C == 0 {
-			n = K(1)
-		}
-		out = append(out, Hit{R: r, Hay: h.h, Needle: n, Mask: h.mask})
+	for _, r := range rs {
+		out = append(out, hitOf(r, st.hits[r]))
 	}
 	return out
 }
+
+// addHit registers a search result; an earlier result of the same call is replaced.
+func (e *Engine) addHit(st *State, fr *Frame, x *ssa.Call, r Sym, h searchHit) {
+	var prev *Hit
+	var rs []Sym
+	for r0 := range st.hits {
+		rs = append(rs, r0)
+	}
+	sortSyms(rs)
+	for _, r0 := range rs {
+		if h0 := st.hits[r0]; h0.org == h.org && r0 != r {
+			ph := hitOf(r0, h0)
+			prev = &ph
+			delete(st.hits, r0)
+		}
+	}
+	st.hits[r] = h
+	if e.Cfg.Hooks.OnSearch != nil {
+		e.curFr, e.curIns = fr, x
+		e.Cfg.Hooks.OnSearch(e, st, fr, x, prev, hitOf(r, h))
+	}
+}
+
+// MaskHas / MaskSingle expose byte sets to rule code.
+func (m Mask) SubsetOf(o Mask) bool { return m.and(o) == m }
+func (m Mask) IsFull() bool         { return m.isFull() }
 
 // Masks lists the bytes of root whose possible values are restricted in st.
 type ByteFact struct {
